@@ -11,6 +11,15 @@ import re
 import random
 
 
+def _to_str(value):
+    return value.decode("utf-8") if isinstance(value, bytes) else value
+
+
+def _quote(value):
+    """Escape a value to be used inside a quoted-string."""
+    return value.replace("\\", "\\\\").replace('"', '\\"')
+
+
 class DigestMD5(object):
     def __init__(self, challenge, digesturi):
         self.__digesturi = digesturi
@@ -18,30 +27,28 @@ class DigestMD5(object):
 
         self.__params = {}
         pexpr = re.compile(r'(\w+)="(.+)"')
-        for elt in base64.b64decode(challenge).split(","):
+        for elt in base64.b64decode(challenge).decode("utf-8").split(","):
             m = pexpr.match(elt)
             if m is None:
                 continue
             self.__params[m.group(1)] = m.group(2)
 
     def __make_cnonce(self):
-        ret = ""
-        for i in xrange(12):
-            ret += chr(random.randint(0, 0xFF))
-        return base64.b64encode(ret)
+        ret = bytes(random.randint(0, 0xFF) for i in range(12))
+        return base64.b64encode(ret).decode("ascii")
 
     def __digest(self, value):
         return hashlib.md5(value).digest()
 
     def __hexdigest(self, value):
-        return binascii.hexlify(hashlib.md5(value).digest())
+        return binascii.hexlify(hashlib.md5(value).digest()).decode("ascii")
 
     def __make_response(self, username, password, check=False):
-        a1 = "%s:%s:%s" % (
-            self.__digest("%s:%s:%s" % (username, self.realm, password)),
-            self.__params["nonce"],
-            self.cnonce,
-        )
+        a1 = self.__digest(
+            ("%s:%s:%s" % (username, self.realm, password)).encode("utf-8")
+        ) + (":%s:%s" % (self.__params["nonce"], self.cnonce)).encode("utf-8")
+        if self.authz_id:
+            a1 += (":%s" % self.authz_id).encode("utf-8")
         if check:
             a2 = ":%s" % self.__digesturi
         else:
@@ -50,13 +57,16 @@ class DigestMD5(object):
             self.__hexdigest(a1),
             self.__params["nonce"],
             self.cnonce,
-            self.__hexdigest(a2),
+            self.__hexdigest(a2.encode("utf-8")),
         )
 
-        return self.__hexdigest(resp)
+        return self.__hexdigest(resp.encode("utf-8"))
 
     def response(self, username, password, authz_id=""):
-        self.realm = self.__params["realm"] if self.__params.has_key("realm") else ""
+        username = _to_str(username)
+        password = _to_str(password)
+        self.authz_id = _to_str(authz_id)
+        self.realm = self.__params["realm"] if "realm" in self.__params else ""
         self.cnonce = self.__make_cnonce()
         respvalue = self.__make_response(username, password)
 
@@ -64,23 +74,22 @@ class DigestMD5(object):
             'username="%s",%snonce="%s",cnonce="%s",nc=00000001,qop=auth,'
             'digest-uri="%s",response=%s'
             % (
-                username,
-                ('realm="%s",' % self.realm) if len(self.realm) else "",
+                _quote(username),
+                ('realm="%s",' % _quote(self.realm)) if len(self.realm) else "",
                 self.__params["nonce"],
                 self.cnonce,
                 self.__digesturi,
                 respvalue,
             )
         )
-        if authz_id:
-            if type(authz_id) is unicode:
-                authz_id = authz_id.encode("utf-8")
-            dgres += ',authzid="%s"' % authz_id
+        if self.authz_id:
+            dgres += ',authzid="%s"' % _quote(self.authz_id)
 
-        return base64.b64encode(dgres)
+        return base64.b64encode(dgres.encode("utf-8")).decode("ascii")
 
     def check_last_challenge(self, username, password, value):
-        challenge = base64.b64decode(value.strip('"'))
-        return challenge == (
-            "rspauth=%s" % self.__make_response(username, password, True)
+        challenge = base64.b64decode(_to_str(value).strip().strip('"'))
+        return challenge.decode("utf-8") == (
+            "rspauth=%s"
+            % self.__make_response(_to_str(username), _to_str(password), True)
         )
